@@ -124,7 +124,7 @@ var $newType = (size, kind, string, named, pkg, exported, constructor) => {
                 this.$imag = $fround(imag);
                 this.$val = this;
             };
-            typ.keyFor = x => { return x.$real + "$" + x.$imag; };
+            typ.keyFor = x => { return $floatKey(x.$real) + "$" + $floatKey(x.$imag); };
             break;
 
         case $kindComplex128:
@@ -133,7 +133,7 @@ var $newType = (size, kind, string, named, pkg, exported, constructor) => {
                 this.$imag = imag;
                 this.$val = this;
             };
-            typ.keyFor = x => { return x.$real + "$" + x.$imag; };
+            typ.keyFor = x => { return $floatKey(x.$real) + "$" + $floatKey(x.$imag); };
             break;
 
         case $kindArray:
